@@ -1,7 +1,7 @@
 //! C13, SX126x half: lora-phy's Sx126x driver versus Semtech's SWL2001 sx126x driver, compared as
 //! exact MOSI byte streams per transaction (see wire126.rs).
 
-use crate::doubles::{block_on, prior_byte, NullDelay, NullIv};
+use crate::doubles::{block_on, prior_byte, NullDelay, ResetIv};
 use crate::wire126::Wire126;
 use core::ffi::c_void;
 use lora_phy::mod_params::{Bandwidth, CodingRate, DutyCycleParams, ModulationParams, PacketParams, RadioError, RadioMode, SpreadingFactor};
@@ -153,6 +153,9 @@ pub enum Op126 {
     CalImg { hz: u32 },
     RxDoneSingle { symbols: u16 },
     Init { legacy_sync: u8, dcdc: bool, tcxo: Option<u8>, retention_count: u8 },
+    /// history step (c13_hist.rs): NRESET pulse through `RadioKind::reset`; no SPI traffic on
+    /// either side, the chip's registers go back to their reset contents
+    Reset,
 }
 
 impl Op126 {
@@ -176,6 +179,7 @@ impl Op126 {
             Op126::CalImg { .. } => "calimg",
             Op126::RxDoneSingle { .. } => "rxdone-15.3",
             Op126::Init { .. } => "init",
+            Op126::Reset => "reset",
         }
     }
     pub fn to_json(&self) -> Value {
@@ -202,6 +206,7 @@ impl Op126 {
             Op126::CalImg { hz } => json!({"op":"calimg","hz":hz}),
             Op126::RxDoneSingle { symbols } => json!({"op":"rxdone-15.3","symbols":symbols}),
             Op126::Init { legacy_sync, dcdc, tcxo, retention_count } => json!({"op":"init","legacy_sync":legacy_sync,"dcdc":dcdc,"tcxo":tcxo,"retention_count":retention_count}),
+            Op126::Reset => json!({"op":"reset"}),
         }
     }
     pub fn from_json(v: &Value) -> Option<Op126> {
@@ -232,6 +237,7 @@ impl Op126 {
             "calimg" => Op126::CalImg { hz: u("hz")? as u32 },
             "rxdone-15.3" => Op126::RxDoneSingle { symbols: u("symbols")? as u16 },
             "init" => Op126::Init { legacy_sync: u("legacy_sync")? as u8, dcdc: b("dcdc")?, tcxo: u("tcxo").map(|x| x as u8), retention_count: u("retention_count")? as u8 },
+            "reset" => Op126::Reset,
             _ => return None,
         })
     }
@@ -300,7 +306,7 @@ fn payload(seed: u64, len: usize) -> Vec<u8> {
 }
 
 /// lora-phy side of one operation
-fn lp_exec<C: Sx126xVariant>(r: &mut Sx126x<Wire126, NullIv, C>, wire: &Wire126, seed: u64, op: &Op126) -> Result<(), RadioError> {
+fn lp_exec<C: Sx126xVariant>(r: &mut Sx126x<Wire126, ResetIv, C>, wire: &Wire126, seed: u64, op: &Op126) -> Result<(), RadioError> {
     match op {
         Op126::Sleep { warm } => block_on(r.set_sleep(*warm, &mut NullDelay)),
         Op126::Standby => block_on(r.set_standby()),
@@ -360,6 +366,7 @@ fn lp_exec<C: Sx126xVariant>(r: &mut Sx126x<Wire126, NullIv, C>, wire: &Wire126,
             block_on(r.process_irq_event(RadioMode::Receive(RxMode::Single(*symbols)), None, true)).map(|_| ())
         }
         Op126::Init { legacy_sync, .. } => block_on(r.init_lora(legacy_to_word(*legacy_sync))),
+        Op126::Reset => block_on(r.reset(&mut NullDelay)),
     }
 }
 
@@ -411,49 +418,92 @@ fn hexs(t: &[Vec<u8>]) -> String {
     t.iter().map(|x| hex(x)).collect::<Vec<_>>().join(" | ")
 }
 
-/// Runs one case on both drivers and compares.
-pub fn check126(case: &Case126) -> Result<Verdict, Failure> {
-    let cj = case.to_json();
-    let fail = |rule: &str, fp: String, detail: String| Failure::new(rule, cj.clone(), detail).with_fp(fp);
-    let kind = case.op.kind();
-    let seed = case.seed;
+/// lora-phy driver instance of any chip variant (the RadioKind trait is not object safe)
+pub enum Lp126 {
+    S61(Sx126x<Wire126, ResetIv, Sx1261>),
+    S62(Sx126x<Wire126, ResetIv, Sx1262>),
+    Wl(Sx126x<Wire126, ResetIv, Stm32wl>),
+}
 
-    // ---- identical prior chip contents on both sides
-    let wa = Wire126::new();
-    let wb = Wire126::new();
-    for w in [&wa, &wb] {
-        w.reset(seed);
-        match &case.op {
-            // reference does a read-modify-write on the sync word registers, lora-phy writes the
-            // full value: compared with the registers at their reset value 0x14 0x24
-            Op126::Sync { .. } | Op126::Init { .. } => {
-                w.set_reg(0x0740, 0x14);
-                w.set_reg(0x0741, 0x24);
-            }
-            _ => {}
-        }
-        if let Op126::Init { retention_count, .. } = &case.op {
-            // the retention list counter only ever holds 0..=4
-            w.set_reg(0x029F, *retention_count);
-        }
+/// One lora-phy driver instance and one reference-driver context, each on its own recording
+/// double. `check126` uses it for exactly one operation on freshly primed chip contents; the
+/// history stage (c13_hist.rs) runs several operations on the same instances.
+pub struct Sess126 {
+    pub wa: Wire126,
+    pub wb: Wire126,
+    lp: Lp126,
+    c: smtc::Context<Wire126>,
+    /// NRESET pulses lora-phy's control-line double has seen
+    pub resets: std::rc::Rc<core::cell::Cell<u32>>,
+}
+
+/// Chip-side effect of NRESET / cold-start sleep on the recording double: every register the
+/// drivers wrote is forgotten (unwritten cells hold the seeded prior content, identical on both
+/// sides); the LoRa sync word registers and the retention list hold their documented reset
+/// values (0x14 0x24; empty list) because the drivers read them back.
+pub fn chip_reset126(w: &Wire126) {
+    let mut s = w.0.borrow_mut();
+    s.regs.clear();
+    s.regs.insert(0x0740, 0x14);
+    s.regs.insert(0x0741, 0x24);
+    for a in 0x029Fu16..=0x02A7 {
+        s.regs.insert(a, 0);
+    }
+}
+
+impl Sess126 {
+    pub fn new(chip: Chip126, rx_boost: bool, tcxo: Option<TcxoCtrlVoltage>, dcdc: bool) -> Self {
+        let wa = Wire126::new();
+        let wb = Wire126::new();
+        let target = wa.clone();
+        let iv = ResetIv::new(move || chip_reset126(&target));
+        let resets = iv.resets.clone();
+        let lp = match chip {
+            Chip126::Sx1261 => Lp126::S61(Sx126x::new(wa.clone(), iv, Config { chip: Sx1261, tcxo_ctrl: tcxo, use_dcdc: dcdc, rx_boost })),
+            Chip126::Sx1262 => Lp126::S62(Sx126x::new(wa.clone(), iv, Config { chip: Sx1262, tcxo_ctrl: tcxo, use_dcdc: dcdc, rx_boost })),
+            Chip126::Stm32wlHp => Lp126::Wl(Sx126x::new(wa.clone(), iv, Config { chip: Stm32wl { use_high_power_pa: true }, tcxo_ctrl: tcxo, use_dcdc: dcdc, rx_boost })),
+            Chip126::Stm32wlLp => Lp126::Wl(Sx126x::new(wa.clone(), iv, Config { chip: Stm32wl { use_high_power_pa: false }, tcxo_ctrl: tcxo, use_dcdc: dcdc, rx_boost })),
+        };
+        let c = smtc::Context::new(wb.clone());
+        Sess126 { wa, wb, lp, c, resets }
     }
 
-    // ---- lora-phy
-    let (tcxo, dcdc) = match &case.op {
-        Op126::Init { tcxo, dcdc, .. } => (tcxo.map(tcxo_voltage), *dcdc),
-        _ => (None, false),
-    };
-    let lp_res = catch(|| match case.chip {
-        Chip126::Sx1261 => lp_exec(&mut Sx126x::new(wa.clone(), NullIv, Config { chip: Sx1261, tcxo_ctrl: tcxo, use_dcdc: dcdc, rx_boost: case.rx_boost }), &wa, seed, &case.op),
-        Chip126::Sx1262 => lp_exec(&mut Sx126x::new(wa.clone(), NullIv, Config { chip: Sx1262, tcxo_ctrl: tcxo, use_dcdc: dcdc, rx_boost: case.rx_boost }), &wa, seed, &case.op),
-        Chip126::Stm32wlHp => lp_exec(&mut Sx126x::new(wa.clone(), NullIv, Config { chip: Stm32wl { use_high_power_pa: true }, tcxo_ctrl: tcxo, use_dcdc: dcdc, rx_boost: case.rx_boost }), &wa, seed, &case.op),
-        Chip126::Stm32wlLp => lp_exec(&mut Sx126x::new(wa.clone(), NullIv, Config { chip: Stm32wl { use_high_power_pa: false }, tcxo_ctrl: tcxo, use_dcdc: dcdc, rx_boost: case.rx_boost }), &wa, seed, &case.op),
-    });
-    let lp_res = match lp_res {
-        Ok(r) => r,
-        Err(p) => return Err(Failure::panic(cj.clone(), &p)),
-    };
-    let lp_tx = wa.take_tx();
+    /// Runs one operation on both drivers and compares the transactions.
+    pub fn step(&mut self, case: &Case126, cj: &Value) -> Result<Verdict, Failure> {
+        let r = self.step_inner(case, cj);
+        // chip-side events that are inputs, not driver behaviour
+        for w in [&self.wa, &self.wb] {
+            w.0.borrow_mut().irq = 0; // the interrupt of this operation has been served
+            w.take_tx();
+        }
+        if let Op126::Sleep { warm: false } = &case.op {
+            // cold start: the configuration is lost (datasheet 13.1.1 SetSleep, sleepConfig[2] = 0)
+            chip_reset126(&self.wa);
+            chip_reset126(&self.wb);
+        }
+        r
+    }
+
+    fn step_inner(&mut self, case: &Case126, cj: &Value) -> Result<Verdict, Failure> {
+        let fail = |rule: &str, fp: String, detail: String| Failure::new(rule, cj.clone(), detail).with_fp(fp);
+        let kind = case.op.kind();
+        let seed = case.seed;
+        let (wa, wb) = (self.wa.clone(), self.wb.clone());
+        let resets_before = self.resets.get();
+
+        // ---- lora-phy
+        let lpm = &mut self.lp;
+        let wa2 = wa.clone();
+        let lp_res = catch(move || match lpm {
+            Lp126::S61(r) => lp_exec(r, &wa2, seed, &case.op),
+            Lp126::S62(r) => lp_exec(r, &wa2, seed, &case.op),
+            Lp126::Wl(r) => lp_exec(r, &wa2, seed, &case.op),
+        });
+        let lp_res = match lp_res {
+            Ok(r) => r,
+            Err(p) => return Err(Failure::panic(cj.clone(), &p)),
+        };
+        let lp_tx = wa.take_tx();
 
     // ---- documented refusals: no traffic at all
     if let Err(e) = &lp_res {
@@ -477,7 +527,7 @@ pub fn check126(case: &Case126) -> Result<Verdict, Failure> {
     }
 
     // ---- reference
-    let mut c = smtc::Context::new(wb.clone());
+    let c = &mut self.c;
     let mut independent: Vec<String> = vec![]; // violations of datasheet-grounded side conditions
     match &case.op {
         Op126::Sleep { warm } => {
@@ -572,7 +622,7 @@ pub fn check126(case: &Case126) -> Result<Verdict, Failure> {
                     c.set_rx_with_timeout_in_rtc_step(0xFFFFFF);
                 }
                 RxKind::Duty { rx, sleep } => unsafe {
-                    sx126x_set_rx_duty_cycle_with_timings_in_rtc_step(ctxp(&mut c), *rx, *sleep);
+                    sx126x_set_rx_duty_cycle_with_timings_in_rtc_step(ctxp(c), *rx, *sleep);
                 },
             }
         }
@@ -622,13 +672,13 @@ pub fn check126(case: &Case126) -> Result<Verdict, Failure> {
             c.clear_irq_status(0xFFFF);
             // datasheet 15.3 (implicit header mode timeout behaviour): reference sx126x_stop_rtc
             unsafe {
-                sx126x_stop_rtc(ctxp(&mut c));
+                sx126x_stop_rtc(ctxp(c));
             }
         }
         Op126::Init { legacy_sync, dcdc, tcxo, .. } => {
             unsafe {
                 if *dcdc {
-                    sx126x_set_reg_mode(ctxp(&mut c), 1);
+                    sx126x_set_reg_mode(ctxp(c), 1);
                 }
             }
             if case.chip.dio2_rf_switch() {
@@ -636,10 +686,10 @@ pub fn check126(case: &Case126) -> Result<Verdict, Failure> {
             }
             if let Some(v) = tcxo {
                 unsafe {
-                    sx126x_clear_device_errors(ctxp(&mut c));
+                    sx126x_clear_device_errors(ctxp(c));
                     // 10 ms start-up time in 15.625 us steps
-                    sx126x_set_dio3_as_tcxo_ctrl(ctxp(&mut c), (*v & 7) as u32, 10 << 6);
-                    sx126x_cal(ctxp(&mut c), 0x7F);
+                    sx126x_set_dio3_as_tcxo_ctrl(ctxp(c), (*v & 7) as u32, 10 << 6);
+                    sx126x_cal(ctxp(c), 0x7F);
                 }
             }
             c.set_pkt_type(smtc::sx126x_pkt_types_e::SX126X_PKT_TYPE_LORA);
@@ -648,6 +698,14 @@ pub fn check126(case: &Case126) -> Result<Verdict, Failure> {
             // datasheet 9.6 / 15.1: RxGain and TxModulation survive warm sleep only when retained
             c.add_registers_to_retention_list(&[0x08AC]);
             c.add_registers_to_retention_list(&[0x0889]);
+        }
+        Op126::Reset => {
+            if self.resets.get() == resets_before {
+                return Err(fail("reset-line", format!("sx126x/{kind}/no-nreset-pulse"), "RadioKind::reset did not pulse NRESET through InterfaceVariant::reset".into()));
+            }
+            // NRESET on the reference's chip: the binding's hal reset is a no-op and the
+            // reference driver keeps no state of its own
+            chip_reset126(&wb);
         }
     }
     let ref_tx = wb.take_tx();
@@ -681,4 +739,33 @@ pub fn check126(case: &Case126) -> Result<Verdict, Failure> {
         return Err(fail("bytes-equal", format!("sx126x/{kind}/final-registers"), "identical traffic but different register contents (harness inconsistency)".into()));
     }
     Ok(Verdict::Compared)
+    }
+}
+
+/// Runs one case on fresh driver instances with primed chip contents and compares.
+pub fn check126(case: &Case126) -> Result<Verdict, Failure> {
+    let cj = case.to_json();
+    let (tcxo, dcdc) = match &case.op {
+        Op126::Init { tcxo, dcdc, .. } => (tcxo.map(tcxo_voltage), *dcdc),
+        _ => (None, false),
+    };
+    let mut s = Sess126::new(case.chip, case.rx_boost, tcxo, dcdc);
+    // ---- identical prior chip contents on both sides
+    for w in [&s.wa, &s.wb] {
+        w.reset(case.seed);
+        match &case.op {
+            // reference does a read-modify-write on the sync word registers, lora-phy writes the
+            // full value: compared with the registers at their reset value 0x14 0x24
+            Op126::Sync { .. } | Op126::Init { .. } => {
+                w.set_reg(0x0740, 0x14);
+                w.set_reg(0x0741, 0x24);
+            }
+            _ => {}
+        }
+        if let Op126::Init { retention_count, .. } = &case.op {
+            // the retention list counter only ever holds 0..=4
+            w.set_reg(0x029F, *retention_count);
+        }
+    }
+    s.step(case, &cj)
 }
